@@ -248,8 +248,12 @@ def ref(e: Any) -> tuple[Any, str]:
 def numeric(e: Any) -> Any:
     """value under the fixed assignment; quantities by raw scale factor"""
     und = sp.core.function.AppliedUndef
-    e = e.replace(lambda x: isinstance(x, und) and x.func in _FUNSUB, lambda x: _FUNSUB[x.func](
-        *x.args))  # bottom-up, so nested applications and derivatives of them are all replaced
+    for _ in range(12):  # bottom-up; repeated, because replace() can leave an outer application
+        # behind when the rebuilt outer node equals an inner one it has just replaced (f(f(0)))
+        if not any(x.func in _FUNSUB for x in e.atoms(und)):
+            break
+        e = e.replace(lambda x: isinstance(x, und) and x.func in _FUNSUB, lambda x: _FUNSUB[x.func](
+            *x.args))
     e = e.doit()
     rep = {s: _NUM[s] for s in e.free_symbols if s in _NUM}
     rep.update({q: q.scale_factor for q in e.atoms(SymQuantity)})
